@@ -57,7 +57,7 @@ def addCov (cov : List String) (tags : List String) : List String :=
   tags.foldl (fun c t => if c.contains t then c else c ++ [t]) cov
 
 /-- One C17 case on one model variant: `lines` are (lineNo, text) of the case body. -/
-def runCase17V (lines : Array (Nat × String)) (fixReap fixAck fixRetx : Bool) : CaseResult := Id.run do
+def runCase17V (lines : Array (Nat × String)) (fixReap fixAck fixRetx fixQuiet : Bool) : CaseResult := Id.run do
   let mut res : CaseResult := {}
   let mut w : R17.World := {}
   let mut g : O17.G := {}
@@ -69,8 +69,21 @@ def runCase17V (lines : Array (Nat × String)) (fixReap fixAck fixRetx : Bool) :
   for (ln, l) in lines do
     if l.startsWith "CFG" then
       let hs := parseHosts l
-      w := { fab := hs.foldl (fun f a => f.addHost a fixReap fixAck fixRetx) {} }
-      g := { addrs := hs }
+      let fab := hs.foldl (fun f a => f.addHost a fixReap fixAck fixRetx fixQuiet) {}
+      -- `eph=<lo>-<hi>`: ephemeral range shrunk through the verification hook
+      let eph := (l.splitOn " ").findSome? fun t =>
+        match t.splitOn "=" with
+        | ["eph", v] => (match v.splitOn "-" with
+            | [a, b] => (match a.toNat?, b.toNat? with | some a, some b => some (a, b) | _, _ => none)
+            | _ => none)
+        | _ => none
+      match eph with
+      | some (lo, hi) =>
+        w := { fab := fab.setEph lo hi }
+        g := { addrs := hs, lo := lo, hi := hi }
+      | none =>
+        w := { fab := fab }
+        g := { addrs := hs }
     else if l.startsWith "OP " then
       match parseOp17 (l.splitOn " ") with
       | some op =>
@@ -117,16 +130,23 @@ def runCase17V (lines : Array (Nat × String)) (fixReap fixAck fixRetx : Bool) :
 
 /-- Correspondence accepts the code as it was (faithful) or any combination of the repairs
     (F-C17-1 orphan reaping, ACK of unacceptable SYN/FIN, retransmit counters reset at the end of
-    the handshake); first match wins, the verdict of the faithful run is reported if none fits. -/
+    the handshake, quiet abort in LastAck/Closing); first match wins, the verdict of the faithful run is reported if none fits. -/
 def runCase17 (lines : Array (Nat × String)) : CaseResult × String := Id.run do
-  let r0 := runCase17V lines false false false
+  let r0 := runCase17V lines false false false false
   if r0.kOk then return (r0, "faithful")
-  let variants : List (Bool × Bool × Bool × String) :=
-    [(true, true, true, "fixed"), (true, false, false, "fixed:reap"), (false, true, false, "fixed:ack"),
-     (false, false, true, "fixed:retx"), (true, true, false, "fixed:reap+ack"),
-     (true, false, true, "fixed:reap+retx"), (false, true, true, "fixed:ack+retx")]
-  for (a, b, c, name) in variants do
-    let r := runCase17V lines a b c
+  -- the variants differ only in TCP behaviour: nothing to retry without TCP traffic
+  let hasTcp := lines.any fun (_, l) =>
+    l.startsWith "OP " && ((l.splitOn " ").getD 2 "" |> fun o => o == "tconnect" || o == "tconnectcancel" ||
+      o == "injectsyn" || o == "injectrst")
+  if !hasTcp then return (r0, "-")
+  let variants : List (Bool × Bool × Bool × Bool × String) :=
+    [(true, true, true, true, "fixed"), (true, true, true, false, "fixed:reap+ack+retx"),
+     (true, false, false, false, "fixed:reap"), (false, true, false, false, "fixed:ack"),
+     (false, false, true, false, "fixed:retx"), (false, false, false, true, "fixed:quiet"),
+     (true, true, false, false, "fixed:reap+ack"), (true, false, true, false, "fixed:reap+retx"),
+     (false, true, true, false, "fixed:ack+retx")]
+  for (a, b, c, d, name) in variants do
+    let r := runCase17V lines a b c d
     if r.kOk then return (r, name)
   return (r0, "-")
 
